@@ -12,6 +12,7 @@ import (
 	"fmt"
 	"sort"
 	"strings"
+	"sync/atomic"
 	"testing"
 
 	"github.com/google/uuid"
@@ -27,6 +28,7 @@ import (
 	"github.com/synnaxlabs/synnax/pkg/service/user"
 	xerrors "github.com/synnaxlabs/x/errors"
 	"github.com/synnaxlabs/x/gorp"
+	"github.com/synnaxlabs/x/kv"
 	"github.com/synnaxlabs/x/kv/memkv"
 )
 
@@ -35,7 +37,31 @@ import (
 // fixture is the rbac suite's BeforeSuite (rbac_suite_test.go) in plain Go, built fresh for
 // every case: gorp on memkv, ontology, search, group, auth, user, rbac.OpenService (which
 // provisions the built-in roles and policies).
+// refuseCommitDB wraps the key-value store: while armed, the Commit of a transaction opened on
+// it returns an error and persists nothing.
+type refuseCommitDB struct {
+	kv.DB
+	armed atomic.Bool
+}
+
+var errCommitRefused = stderrors.New("verif: commit refused by the key-value store")
+
+func (d *refuseCommitDB) OpenTx() kv.Tx { return &refuseCommitTx{Tx: d.DB.OpenTx(), db: d} }
+
+type refuseCommitTx struct {
+	kv.Tx
+	db *refuseCommitDB
+}
+
+func (t *refuseCommitTx) Commit(ctx context.Context, opts ...any) error {
+	if t.db.armed.Load() {
+		return errCommitRefused
+	}
+	return t.Tx.Commit(ctx, opts...)
+}
+
 type fixture struct {
+	refuse  *refuseCommitDB
 	db      *gorp.DB
 	otg     *ontology.Ontology
 	search  *search.Index
@@ -55,7 +81,8 @@ func openFixture(ctx context.Context, withRoot bool) (fx *fixture, err error) {
 			fx.close()
 		}
 	}()
-	fx.db = gorp.Wrap(memkv.New())
+	fx.refuse = &refuseCommitDB{DB: memkv.New()}
+	fx.db = gorp.Wrap(fx.refuse)
 	fx.closers = append(fx.closers, fx.db.Close)
 	if fx.otg, err = ontology.Open(ctx, ontology.Config{DB: fx.db}); err != nil {
 		return nil, fmt.Errorf("ontology.Open: %w", err)
@@ -324,6 +351,22 @@ func execute(sc Script, rep *kit.Report) error {
 			}
 			s.tx, committed, inTx = nil, inTx, nil
 			rep.Class("tx-committed")
+			continue
+		case "commitfail":
+			// the storage engine refuses the commit: the transaction must report it and leave
+			// the committed view exactly as it was
+			if s.tx == nil {
+				continue
+			}
+			fx.refuse.armed.Store(true)
+			cerr := s.tx.Commit(ctx)
+			fx.refuse.armed.Store(false)
+			if cerr == nil {
+				return kit.Fail("refused-commit-reported-success", "step %d: the key-value store refused the commit but Tx.Commit returned nil", step)
+			}
+			_ = s.tx.Close()
+			s.tx, inTx = nil, nil
+			rep.Class("tx-commit-refused")
 			continue
 		case "rollback":
 			if s.tx == nil {
